@@ -345,6 +345,29 @@ def locate_checks(X, R, p, truth, aid):
         if tri_ok:
             judge('bounds', g.column_containing_point(pos, bounds=tri_np), tri_exp, note='(triangle %r)' % (tri,)); nsub += 1
             R.label('bounds:point-%s-polygon' % ('inside' if geom_ref.contains(p, tri) else 'outside'))
+        # non-convex bounds: a U-shaped polygon around the mesh (a ray from a point in one arm crosses its boundary three
+        # times) and, on small meshes, the geometry's own boundary polygon (re-entrant for irregular outlines)
+        W, H = bb[2] - bb[0] + 2 * ex, bb[3] - bb[1] + 2 * ey
+        fa, fb = sorted([0.15 + 0.7 * aid['poly'][0][0], 0.15 + 0.7 * aid['poly'][1][0]])
+        if fb - fa < 0.05: fa, fb = 0.3, 0.7
+        xa, xb, yd = bb[0] - ex + fa * W, bb[0] - ex + fb * W, bb[1] - ey + (0.1 + 0.5 * aid['poly'][2][1]) * H
+        ushape = [(bb[0] - ex, bb[1] - ey), (bb[2] + ex, bb[1] - ey), (bb[2] + ex, bb[3] + ey), (xb, bb[3] + ey), (xb, yd), (xa, yd),
+                  (xa, bb[3] + ey), (bb[0] - ex, bb[3] + ey)]
+        polys = [('U-shaped polygon', ushape)]
+        if X.n <= 60:
+            try: bp = [tuple(float(v) for v in q) for q in g.boundary_polygon]
+            except Exception: bp = None
+            if bp and len(bp) >= 3:
+                if geom_ref.area_exact(bp) < 0: bp = bp[::-1]
+                polys.append(('own boundary polygon', bp))
+        for what, poly in polys:
+            if geom_ref.area_exact(poly) <= 1e-6 * X.size ** 2: continue
+            if geom_ref.boundary_dist(p, poly) <= 1e-6 * X.size + 1e-9 * X.maxabs:
+                R.label('bounds:point-on-polygon-boundary(not judged)'); continue
+            inside = geom_ref.contains(p, poly)
+            R.label('bounds:nonconvex:point-%s' % ('inside' if inside else 'outside'))
+            judge('bounds', g.column_containing_point(pos, bounds=[np.array(v) for v in poly]), exp if inside else None,
+                  note='(%s, %d vertices)' % (what, len(poly))); nsub += 1
     # columns superset
     sup = dict((X.cols[i % X.n].name, X.cols[i % X.n]) for i in aid['subset'])
     if truth is not None: sup[truth.name] = truth
